@@ -198,6 +198,8 @@ pub enum Stage {
     FlatMap(FlatFn),
     /// `filter_map`: keep `ModNe` and apply map
     FilterMap(FilterFn, MapFn),
+    /// `rich_map` with a running index (only on sequential, single replica segments): v -> 31*v + index
+    RichIndex,
     Shuffle,
     Broadcast,
     Replicate(Repl),
